@@ -1144,8 +1144,15 @@ def gen_history(rng, nshared=0, shared_desc=None, maxops=40):
                 s = (vec.rand_v3(rng, 2) if ver == 3 else vec.rand_v2(rng, 2))       # maybe too high a level
             elif k < 9:
                 s = (vec.rand_v3(rng, L) if ver == 3 else vec.rand_v2(rng, L))
-                p = rng.below(max(1, len(s)))
-                s = s[:p] + rng.choice(["", "/", ":", "x", "X:X/"]) + s[p + rng.below(2):]
+                if rng.chance(1, 2):
+                    # complete and valid, but two tokens swapped (v2: misordered; v3: another spelling, or the prefix moved)
+                    tk = s.split("/")
+                    i, j = rng.below(len(tk)), rng.below(len(tk))
+                    tk[i], tk[j] = tk[j], tk[i]
+                    s = "/".join(tk)
+                else:
+                    p = rng.below(max(1, len(s)))
+                    s = s[:p] + rng.choice(["", "/", ":", "x", "X:X/"]) + s[p + rng.below(2):]
             else:
                 s = rng.choice(["", "/", "CVSS:3.1", "AV:N", "CVSS:3.1/AV:N/AV:N"])
             ops.append("D%d,%s" % (i, core.hx(s)))
@@ -1348,7 +1355,7 @@ class ConcProp:
         except core.BuildError as e:
             out.violations.append(("build", "cannot build the harness with -race: %s" % str(e)[-300:], "", ""))
             return out
-        rounds = 6 if tier == "quick" else 200
+        rounds = 8 if tier == "quick" else 200
         G = 16
         total = 0
         kinds = {}
@@ -1373,6 +1380,23 @@ class ConcProp:
                     h = ["N3%s" % "BTE"[g % 3], "D%d,%s" % (own, core.hx(vec.rand_v3(rng, g % 3, perm=False)))]
                     for k in range(nrep):
                         h.append("X%d,%d" % ((own if k % 2 else g % 3), (g + (k // 97)) % 6))
+                    hs.append(";".join(h))
+            elif r % 4 == 3:
+                # decode/encode storm (both versions) after every goroutine has had a complete but misordered v2 vector rejected
+                kind = "decode/encode storm"
+                for g in range(G):
+                    own = len(desc)
+                    mis = vec.rand_v2(rng, 2).split("/")
+                    mis[4], mis[5] = mis[5], mis[4]
+                    h = ["N2E", "D%d,%s" % (own, core.hx("/".join(mis)))]
+                    for k in range(nrep // 6):
+                        ver = 2 if k % 2 else 3
+                        Lk = (g + k) % 3
+                        h.append("N%d%s" % (ver, "BTE"[Lk]))
+                        slot = own + 1 + k
+                        h.append("D%d,%s" % (slot, core.hx(vec.rand_v2(rng, Lk) if ver == 2 else vec.rand_v3(rng, Lk))))
+                        h.append("Q%d" % slot)
+                        h.append("Q%d" % (g % 6))
                     hs.append(";".join(h))
             elif r % 3 == 2:
                 # report storm: reports in different languages (and with no language option) built concurrently
